@@ -61,7 +61,7 @@ pub fn run(c: &Case, tmp: &std::path::Path) -> Vec<String> {
     std::fs::create_dir_all(&dir).unwrap();
     let main = dir.join("c.jbk");
     let pkg = c.p("pkg");
-    let st = match std_container(main.to_str().unwrap(), pkg, c.p("comp"), c.pu("n") as u32, c.pu("extra") as u32, c.pu("seed"), 0, 0, 0) {
+    let st = match std_container(main.to_str().unwrap(), pkg, c.p("comp"), c.pu("n") as u32, c.pu("extra") as u32, c.pu("seed"), 0, 0, 0, false) {
         Ok(s) => s,
         Err(e) => {
             out.push(format!("{} create CREATE_FAIL {}", c.id, e.replace(' ', "_")));
